@@ -462,10 +462,21 @@ func c47Boundary(run int, rng interface{ Intn(int) int }) c47Rec {
 		r.mu.Lock()
 		r.out[1] = id
 		r.mu.Unlock()
-		blob, err := r.c.GetOrCompute(c47ID(id), func() ([]byte, error) {
-			return r.finishCompute(1, id, capv, slackLen, !fail)
-		})
-		r.finishLookup(1, id, blob, err)
+		done := make(chan struct{})
+		go func() {
+			blob, err := r.c.GetOrCompute(c47ID(id), func() ([]byte, error) {
+				return r.finishCompute(1, id, capv, slackLen, !fail)
+			})
+			r.finishLookup(1, id, blob, err)
+			close(done)
+		}()
+		select {
+		case <-done:
+		case <-time.After(45 * time.Second):
+			// a sequential lookup with an immediate compute function that does not return is blocked for good
+			r.rec.Stuck = append(r.rec.Stuck, c47Stuck{P: 1, ID: id})
+			return r.rec
+		}
 		c47Beat.Add(1)
 		st := r.observe(id)
 		r.rec.Steps = append(r.rec.Steps, st)
@@ -498,7 +509,7 @@ func c47Watchdog(recs *kit.NDJSON, res *kit.Result, stop chan struct{}) {
 		buf = buf[:runtime.Stack(buf, true)]
 		inCache := false
 		for _, g := range strings.Split(string(buf), "\n\n") {
-			if strings.Contains(g, "bloblru.(*Cache).") && (strings.Contains(g, "[running]") || strings.Contains(g, "[runnable]")) {
+			if strings.Contains(g, "bloblru.(*Cache).") && !strings.Contains(g, "[chan receive") {
 				inCache = true
 			}
 		}
@@ -604,13 +615,21 @@ func TestVerif_C47(t *testing.T) {
 	rng := kit.Rand(4711)
 	for i := 0; i < kit.Pick(150, 3000); i++ {
 		c47Cur.Store(fmt.Sprintf("stress %d", i))
-		note(c47Stress(i, rng))
+		rec := c47Stress(i, rng)
+		note(rec)
+		if len(rec.Stuck) > 0 {
+			break // blocked goroutines stay behind; one such run is enough for the verdict
+		}
 	}
 	// 3. byte-granular boundary sequences
 	rng = kit.Rand(4712)
 	for i := 0; i < kit.Pick(400, 8000); i++ {
 		c47Cur.Store(fmt.Sprintf("boundary %d", i))
-		note(c47Boundary(i, rng))
+		rec := c47Boundary(i, rng)
+		note(rec)
+		if len(rec.Stuck) > 0 {
+			break
+		}
 	}
 	recs.Close()
 	res.Save("")
